@@ -39,6 +39,12 @@ for name in sorted(os.listdir(os.path.join(V, "seeded"))):
     from tools.driver import load_units
     us = [u.name for u in load_units().values() if pid in u.props and (tier == "thorough" or u.tier == "quick") and
           (u.runner or u.src in touched or any(x in touched for x in u.extra_src))]
+    # narrower: if some unit is the contract of a function named in a hunk header, run only those
+    funcs = set(re.findall(r"^@@[^@]*@@.*?\b([A-Za-z_][A-Za-z0-9_]*)\s*\(", open(os.path.join(d, "patch.diff")).read(), re.M))
+    allu = load_units()
+    exact = [n for n in us if allu[n].enforce in funcs or allu[n].runner]
+    if any(allu[n].enforce in funcs for n in exact):
+        us = exact
     if not us:
         res[name] = {"property": pid, "tier": tier, "result": "missed", "lines": ["no unit of %s verifies %s" % (pid, ",".join(sorted(touched)))]}
         print(name, "missed (no unit on the touched files)")
